@@ -1,18 +1,36 @@
 (* C10 -- Closing a server is clean and safe under concurrent traffic.
-   Statements only; proofs are in Net/RouterCloseProofs.v and Net/CloseSeqProofs.v.
+   Statements only; proofs are in Net/RouterCloseProofs.v, Net/CloseSeqProofs.v,
+   Net/CloseConcProofs.v, Net/SendCloseProofs.v, Net/StartCloseProofs.v, Net/C10CheckProofs.v.
+
+   WHICH CODE A STATEMENT IS ABOUT.  All four repairs found by this part have landed in the
+   repository (F11, F41, F42, F43; Corr/C10.v code_fixed_* = true), so THE CODE AS IT IS is the
+   variant with every switch true: [mkFx true true] for the router, [fx_ts = fx_ov = true] for
+   the close sequence, [cta = false] (CloseConc), [ctm = false] (SendClose), [bo = false]
+   (StartClose).  "Pinned code" / "earlier code" in the comments below means the code BEFORE
+   the repair, i.e. the same model with that one switch false; those statements are kept as
+   refutations of the earlier variant (regression witnesses), they say nothing about the
+   present code.  A statement quantified over [fx] or [f4] holds for both variants.
 
    [run fx init acts] ranges over every interleaving of any number of Stop calls, Send
    calls (first contact included), inbound connections, peer closes, deliveries,
    time-outs and handler steps of network/router.go (Net/RouterClose.v); fx : fixes selects
-   the repairs: f11 fx (a connection whose set-up fails is closed by the set-up thread;
-   landed) and f43 fx (accepted connections are tracked from the start of the Listen
-   callback until it returns, Stop closes them and waits for the callbacks); mkFx false
-   false is the pinned code.
+   the repairs: f11 fx (a connection whose set-up fails is closed by the set-up thread)
+   and f43 fx (accepted connections are tracked from the start of the Listen callback until
+   it returns, Stop closes them and waits for the callbacks).
    [crun fx_ts fx_ov (cinit insts) acts] ranges over every interleaving of Server.Close
    (after Router.Stop: websocket stop, Overlay.Close, treeStorage.Close, database close)
    with the tree store's removal timers, instances that finish, messages that refresh a
-   tree and protocol starts (Net/CloseSeq.v); fx_ts / fx_ov are the planned repairs of
-   F41 (store lock released before wg.Wait) and F42 (closed overlay refuses instances). *)
+   tree and protocol starts (Net/CloseSeq.v); fx_ts / fx_ov are the repairs of
+   F41 (store lock released before wg.Wait) and F42 (closed overlay refuses instances).
+
+   The five transition systems are separate: RouterClose (embedded in CloseConc for
+   Router.Stop), CloseSeq, SendClose, StartClose.  No theorem is about their product; each
+   refines one step that the others take as opaque (see conf/C10.json, assumptions).
+
+   LIVENESS is stated in two halves and needs a fair scheduler to become "eventually":
+   (a) in every reachable state some enabled step of the thread itself lowers its measure,
+   (b) no step of any other thread raises that measure.  "A handler has exited" means it is
+   past wg.Done(); the return of the goroutine after that is observed, not modelled. *)
 From Coq Require Import List Arith Bool.
 Import ListNotations.
 From Onet Require Import Net.RouterClose Net.RouterCloseProofs Net.CloseSeq Net.CloseSeqProofs.
@@ -32,7 +50,7 @@ Theorem c10_all_closed : forall f4 acts s,
 Proof. exact all_closed. Qed.
 Print Assumptions c10_all_closed.
 
-(* pinned code, complement of the defect: the only connections left open are those a
+(* both variants (for the earlier code: the complement of F11): the only connections left open are those a
    failing set-up thread dropped (registration refused / identity not sent) *)
 Theorem c10_all_closed_except_abandoned : forall fx acts s,
   run fx init acts = Some s -> quiescent s = true ->
@@ -41,7 +59,7 @@ Theorem c10_all_closed_except_abandoned : forall fx acts s,
 Proof. exact all_closed_except_abandoned. Qed.
 Print Assumptions c10_all_closed_except_abandoned.
 
-(* F11: the pinned code abandons an open connection - Stop between host.Connect and
+(* F11, earlier code (f11 = false): it abandons an open connection - Stop between host.Connect and
    registerConnection (outgoing), between receiveServerIdentity and registerConnection
    (incoming), and a Send issued after Stop returned *)
 Theorem c10_abandoned_conn_refuted : leaks witness_out /\ leaks witness_in /\ leaks witness_after.
@@ -206,7 +224,7 @@ Print Assumptions c10_reachable_example.
 
 (* ---- Server.Close after the router has stopped ----------------------------- *)
 
-(* F41: the pinned treeStorage.Close waits for the timer goroutines while holding the
+(* F41, earlier code (fx_ts = false): treeStorage.Close waits for the timer goroutines while holding the
    store's lock; a timer that has fired needs that lock: no action whatsoever is enabled *)
 Theorem c10_close_hang_refuted :
   exists s, crun false false (cinit [0]) hang_witness = Some s /\
@@ -228,7 +246,7 @@ Theorem c10_close_no_crash : forall fx_ts fx_ov insts acts s,
 Proof. exact close_no_crash. Qed.
 Print Assumptions c10_close_no_crash.
 
-(* F42: the pinned overlay registers (and runs the dispatch goroutine of) an instance
+(* F42, earlier code (fx_ov = false): the overlay registers (and runs the dispatch goroutine of) an instance
    started after Overlay.Close; nothing stops it *)
 Theorem c10_instance_after_close_refuted :
   exists s, crun false false (cinit []) [AKRouter; AKWebsocket; AKTsClose; AKTsWait; AKDb; ANewInstance 5] = Some s /\
@@ -263,7 +281,7 @@ Proof. exact check_server_iff. Qed.
 Print Assumptions c10_checker_server_iff.
 
 (* repaired model: in every interleaving, once a Stop has returned and everything has
-   ended, the model's own observation passes the checker; the pinned model fails it on the
+   ended, the model's own observation passes the checker; the model of the earlier code (mkFx false false) fails it on the
    F11 witnesses, on clause 2 exactly *)
 Theorem c10_model_passes_checker : forall f4 acts s,
   run (mkFx true f4) init acts = Some s -> stop_returned s = true -> quiescent s = true ->
